@@ -32,6 +32,18 @@ func delayed(g micro.Goal, d time.Duration) micro.Goal {
 
 func traceStr(tr *Trace) string { return strings.Join(tr.Show, " ") }
 
+// observeGuarded evaluates a goal and steps its stream under a watchdog: a combinator that does not return is an observation.
+func observeGuarded(g micro.Goal, st *micro.State, budget int, d time.Duration) (*Trace, bool) {
+	done := make(chan *Trace, 1)
+	go func() { done <- observeTrace(g(st), budget) }()
+	select {
+	case tr := <-done:
+		return tr, true
+	case <-time.After(d):
+		return &Trace{Show: []string{"<did not return>"}}, false
+	}
+}
+
 func answersOf(tr *Trace, nq int) []string {
 	q := queryVec(nq)
 	out := make([]string, len(tr.States))
@@ -49,6 +61,7 @@ func runC10(cfg *Config) *Report {
 	r := newRand(cfg.Seed)
 	pg := &progGen{r: r, allowNon: false, rels: []int{0, 1, 2, 3, 4, 5, 7, 8, 10}}
 	defer runtime.GOMAXPROCS(runtime.GOMAXPROCS(0))
+	hangs := 0
 	for i := 0; i < cfg.N; i++ {
 		nq := 1
 		n := r.Intn(6)
@@ -87,6 +100,27 @@ func runC10(cfg *Config) *Report {
 				args[0], args[k] = args[k], args[0]
 			}
 		}
+		// nesting: (1) ONE inner concurrent disjunction value used at two places (the combinators are goals, and a goal value may be
+		// applied by several goroutines at once); (2) a deep right-nested tower of concurrent disjunctions
+		nestKind, nestDesc := 0, ""
+		var innerArgs []*G
+		innerDelays := []time.Duration{}
+		towerDepth := 0
+		switch r.Intn(6) {
+		case 0, 1:
+			if n >= 2 {
+				nestKind = 1
+				for k := 2 + r.Intn(2); k > 0; k-- {
+					innerArgs = append(innerArgs, gEq(ptB(0), ptAtom(pick(r, progAtoms))))
+					innerDelays = append(innerDelays, time.Duration(200+r.Intn(1800))*time.Microsecond)
+				}
+				nestDesc = fmt.Sprintf("with ONE value d = concurrent.DisjPlus(%s) (delays %v) used in two arguments", showGoals(innerArgs), innerDelays)
+			}
+		case 2:
+			nestKind = 2
+			towerDepth = 70 + r.Intn(60)
+			nestDesc = fmt.Sprintf("with a tower of %d right-nested concurrent.DisjPlus as last argument", towerDepth)
+		}
 		procs := pick(r, []int{1, 2, 4, 16})
 		budget := 30 + r.Intn(20)
 		if cfg.Only >= 0 && cfg.Only != i {
@@ -99,6 +133,23 @@ func runC10(cfg *Config) *Report {
 		runtime.GOMAXPROCS(procs)
 		env := queryEnv(nq)
 		st0 := &micro.State{Substitutions: nil, Counter: uint64(nq)}
+		// the arguments as the model / the sequential reference see them
+		argsM := append([]*G{}, args...)
+		k1, k2 := 0, 0
+		var tower *G
+		switch nestKind {
+		case 1:
+			k1 = r.Intn(n)
+			k2 = (k1 + 1 + r.Intn(n-1)) % n
+			argsM[k1] = gConj(args[k1], gDisjPlus(false, innerArgs...))
+			argsM[k2] = gConj(args[k2], gDisjPlus(false, innerArgs...))
+		case 2:
+			tower = gEq(ptB(0), ptAtom(progAtoms[0]))
+			for d := 1; d <= towerDepth; d++ {
+				tower = gDisjPlus(false, gEq(ptB(0), ptAtom(progAtoms[d%len(progAtoms)])), tower)
+			}
+			argsM = append(argsM, tower)
+		}
 		mk := func(shuffle bool) []micro.Goal {
 			gs := make([]micro.Goal, n)
 			for k, a := range args {
@@ -108,28 +159,60 @@ func runC10(cfg *Config) *Report {
 				}
 				gs[k] = delayed(build(a, env), d)
 			}
+			switch nestKind {
+			case 1:
+				in := make([]micro.Goal, len(innerArgs))
+				for k, a := range innerArgs {
+					in[k] = delayed(build(a, env), innerDelays[k])
+				}
+				inner := concurrent.DisjPlus(in...) // ONE goal value
+				gs[k1] = micro.Conj(gs[k1], inner)
+				gs[k2] = micro.Conj(gs[k2], inner)
+			case 2:
+				t := build(gEq(ptB(0), ptAtom(progAtoms[0])), env)
+				for d := 1; d <= towerDepth; d++ {
+					t = concurrent.DisjPlus(build(gEq(ptB(0), ptAtom(progAtoms[d%len(progAtoms)])), env), t)
+				}
+				gs = append(gs, t)
+			}
 			return gs
 		}
-		plain := func() []micro.Goal { return buildAll(args, env) }
+		plain := func() []micro.Goal { return buildAll(argsM, env) }
 		var conc, seq func(gs ...micro.Goal) micro.Goal
 		var model *G
 		switch comb {
 		case "DisjPlus":
-			conc, seq, model = concurrent.DisjPlus, mini.DisjPlusNoZzz, gDisjPlus(false, args...)
+			conc, seq, model = concurrent.DisjPlus, mini.DisjPlusNoZzz, gDisjPlus(false, argsM...)
 		case "DisjPlusZzz":
-			conc, seq, model = concurrent.DisjPlusZzz, mini.DisjPlus, gDisjPlus(true, args...)
+			conc, seq, model = concurrent.DisjPlusZzz, mini.DisjPlus, gDisjPlus(true, argsM...)
 		case "DisjPlusNoOrder":
-			conc, seq, model = concurrent.DisjPlusNoOrder, mini.DisjPlusNoZzz, gDisjPlus(false, args...)
+			conc, seq, model = concurrent.DisjPlusNoOrder, mini.DisjPlusNoZzz, gDisjPlus(false, argsM...)
 		case "ConjPlus":
-			conc, seq, model = concurrent.ConjPlus, mini.ConjPlusNoZzz, gConjPlus(false, args...)
+			conc, seq, model = concurrent.ConjPlus, mini.ConjPlusNoZzz, gConjPlus(false, argsM...)
 		default:
-			conc, seq, model = concurrent.ConjPlusZzz, mini.ConjPlus, gConjPlus(true, args...)
+			conc, seq, model = concurrent.ConjPlusZzz, mini.ConjPlus, gConjPlus(true, argsM...)
 		}
 		desc := fmt.Sprintf("concurrent.%s(%s) delays=%v GOMAXPROCS=%d budget=%d", comb, showGoals(args), delays, procs, budget)
+		if nestKind != 0 {
+			desc += " " + nestDesc
+		}
 		seqTr := observeTrace(seq(plain()...)(st0), budget)
 		runs := []*Trace{}
 		for rep3 := 0; rep3 < 3; rep3++ {
-			runs = append(runs, observeTrace(conc(mk(rep3 > 0)...)(st0), budget))
+			tr, returned := observeGuarded(conc(mk(rep3 > 0)...), st0, budget, 8*time.Second)
+			if !returned {
+				hangs++
+				rep.violate(i, "does-not-return", desc, fmt.Sprintf("run %d: the combinator did not return its stream (or the stream its next cell) within 8s; sequential: %s", rep3, traceStr(seqTr)))
+			}
+			runs = append(runs, tr)
+		}
+		if hangs >= 3 {
+			// the package is wedged (blocked goroutines keep whatever they hold): later cases would only repeat the observation
+			rep.Notes = append(rep.Notes, "stopped after three cases that did not return")
+			rep.CaseDesc = append(rep.CaseDesc, desc)
+			rep.CaseObs = append(rep.CaseObs, "<did not return>")
+			cf.add("CaseP hdefs GFail 0 0 [ONil]")
+			break
 		}
 		obs := traceStr(runs[0])
 		// ownership: no stream cell of an argument goal is forced by two goroutines at the same time (data race on its memo)
